@@ -24,6 +24,19 @@ entry lists and all their permutations:
 namespace NA.C16
 open NA.PermFold NA.Gen.MapRanges
 
+/-! ## The library, restated (names without `?` for the audit) -/
+
+/-- "find first satisfying" is invariant under reordering iff at most one candidate satisfies. -/
+theorem findFirst_invariant_iff {α : Type} [DecidableEq α] (p : α → Bool) (l : List α) :
+    (∀ l₁ l₂ : List α, l₁.Perm l → l₂.Perm l → l₁.find? p = l₂.find? p) ↔ AtMostOne p l :=
+  find?_perm_invariant_iff p l
+
+/-- A loop that leaves at the first entry producing a result is invariant under reordering iff
+all results that entries can produce agree. -/
+theorem firstResult_invariant_iff {α ρ : Type} [DecidableEq α] (f : α → Option ρ) (l : List α) :
+    (∀ l₁ l₂ : List α, l₁.Perm l → l₂.Perm l → firstIn f l₁ = firstIn f l₂) ↔ Agree f l :=
+  findSome?_perm_invariant_iff f l
+
 /-! ## Loops that are order-insensitive as they stand -/
 
 theorem site_isValidOutput {κ ν : Type} (hit : κ × ν → Bool) {es₁ es₂ : Entries κ ν}
@@ -133,6 +146,11 @@ theorem site_normalizeIPTables {κ ν : Type} [DecidableEq κ] (norm : κ → ν
     es₁.foldl (Site.normalizeIPTables norm).step s = es₂.foldl (Site.normalizeIPTables norm).step s :=
   ownKey_perm _ hm p s
 
+theorem site_copyKeys {κ ν : Type} [DecidableEq κ] {es₁ es₂ : Entries κ ν}
+    (hm : IsMap es₁) (p : es₁.Perm es₂) (s : κ → Bool) :
+    es₁.foldl (Site.copyKeys (ν := ν)).step s = es₂.foldl (Site.copyKeys (ν := ν)).step s :=
+  ownKey_perm _ hm p s
+
 theorem site_loadDefaults (seen : String → Bool) {es₁ es₂ : Entries String String}
     (hm : IsMap es₁) (p : es₁.Perm es₂) (s : Option (String → Option Nat)) :
     es₁.foldl (Site.loadDefaults seen) s = es₂.foldl (Site.loadDefaults seen) s :=
@@ -187,6 +205,20 @@ theorem shape_holds : ∀ sh, ShapeHolds sh := by
   · intro α β items l₁ l₂ p s; exact foldl_perm_of_rightComm _ (setInsert_rightComm items) p s
   · intro κ ν μ _ skip parse es₁ es₂ hm p s; exact foldl_perm _ p (exitOrOwnKey_commOn skip parse hm) s
 
+/-- Sites found in the source that match no line of `expected`. -/
+def uncovered : List Site :=
+  sites.filter (fun s => !expected.any (fun e => e.matchesSite s.file s.fn s.mapExpr s.ord s.hash s.cls))
+
+-- Diagnostic only (the theorem below is what counts): name the loops that have no proof.
+#eval (do
+  unless uncovered.isEmpty do
+    throw (IO.userError ("C16: range-over-map loops with no matching proof (new loop or changed loop text): " ++
+      toString (uncovered.map fun s => s!"{s.file} {s.fn} range {s.mapExpr} #{s.ord} hash={s.hash} class={s.cls}")))
+  let lost := repaired.filter (fun r => !sortedRanges.contains r)
+  unless lost.isEmpty do
+    throw (IO.userError ("C16: repaired loops that no longer iterate over sorted keys: " ++ toString lost))
+  : IO Unit)
+
 /-- **The tie (T-gen).** Every `range` over a map found in the source by the translator is one
 of the expected sites: same file, function, map expression, ordinal, same hash of the loop
 text and same syntactic class. -/
@@ -209,6 +241,26 @@ theorem repaired_stay_sorted : repaired.all (fun r => sortedRanges.contains r) =
 
 /-- No unordered map iterator (`maps.Keys`, `maps.Values`, `maps.All` outside `slices.Sorted…`). -/
 theorem no_loose_iterators : looseIters = [] := by decide
+
+/-! ## Whole runs -/
+
+/-- **Determinism of a run.** If every loop over a map that the program executes is insensitive
+to the visiting order (the site theorems), then the final state — change script, messages, exit
+status — is the same for every two schedules, i.e. for every way the Go runtime may order the
+map iterations of two runs on the same input. -/
+theorem run_schedule_independent {σ ε : Type} (next : σ → Option (Stage σ ε))
+    (sch₁ sch₂ : Schedule σ ε) (h₁ : sch₁.Valid) (h₂ : sch₂.Valid) (fuel i : Nat) (s : σ) :
+    execRun next sch₁ fuel i s = execRun next sch₂ fuel i s := by
+  induction fuel generalizing i s with
+  | zero => rfl
+  | succ n ih =>
+    simp only [execRun]
+    cases hn : next s with
+    | none => rfl
+    | some st =>
+      simp only []
+      rw [st.inv s _ (h₁ i s _), st.inv s _ (h₂ i s _)]
+      exact ih (i + 1) _
 
 /-! ## Loops that depended on the iteration order on the unchanged tree -/
 
@@ -366,17 +418,23 @@ example : peerObs ([(1, some 7), (2, some 7), (3, some 8)].foldl peerStepFixed (
 example : (defaultVals.foldl (Site.loadDefaults fun _ => false) (some fun _ => none)).isSome = true := by
   decide
 
+/-- A stage of `run_schedule_independent` built from a site theorem. -/
+example : Stage (Entries String Bool × List String) (String × Bool) where
+  entries s := s.1
+  body s l := (s.1, Site.mergeSpocWarnings id [] l)
+  inv := by intro s l p; rw [site_mergeSpocWarnings id [] p]
+
 def obligations : List Lean.Name := [
   ``NA.PermFold.foldl_perm, ``NA.PermFold.sort_perm, ``NA.PermFold.sortBy_perm,
-  ``NA.PermFold.find?_perm_invariant_iff, ``NA.PermFold.findSome?_perm_invariant_iff,
+  ``findFirst_invariant_iff, ``firstResult_invariant_iff,
   ``NA.PermFold.strLe_lawful,
-  ``sites_covered, ``every_site_has_proof, ``shape_holds, ``repaired_stay_sorted, ``no_loose_iterators,
+  ``run_schedule_independent, ``sites_covered, ``every_site_has_proof, ``shape_holds, ``repaired_stay_sorted, ``no_loose_iterators,
   ``anchor_table_agrees, ``default_vals_parse,
   ``site_isValidOutput, ``site_mergeSpocMakeMaps, ``site_mergeSpocWarnings, ``site_anchorProbe,
   ``site_onlyAnchorNames, ``site_posAfterAdd, ``site_posAfterDel, ``site_deleteUnusedCollect,
   ``site_deleteStillReferenced, ``site_markReferenced, ``site_generateNames, ``site_sortGroups,
   ``site_ignoreCryptoGDOI, ``site_addDefaults, ``site_rewriteCommands, ``site_rewriteAndSetTypeRef,
-  ``site_normalizeIPTables, ``site_loadDefaults,
+  ``site_normalizeIPTables, ``site_copyKeys, ``site_loadDefaults,
   ``findGroup_unfixed_counterexample, ``findGroup_unfixed_partial, ``findGroup_fixed_deterministic,
   ``findGroup_fixed_least,
   ``peerMap_unfixed_counterexample, ``peerMap_unfixed_abort_counterexample, ``peerMap_unfixed_partial,
